@@ -39,6 +39,8 @@ def _mk_classes():
             self.outs = c["outs"]
             self.oid = c.get("oid", 0)
             self.units = c.get("units", "")
+            self.after_data = bool(c.get("after_data"))
+            self.no_pull = set(c.get("no_pull", []))  # inputs without an initial pull during connect
             self.world = world
             self.n_update = 0
             self.n_connect = 0
@@ -55,17 +57,21 @@ def _mk_classes():
                 self.inputs.add(name=n, time=self.time, grid=fm.NoGrid(), units=None)
             for n in self.outs:
                 self.outputs.add(name=n, time=self.time, grid=fm.NoGrid(), units=self.units)
-            self.create_connector(pull_data=list(self.ins))
+            self.create_connector(pull_data=[n for n in self.ins if n not in self.no_pull])
 
         def _connect(self, start_time):
             self.n_connect += 1
             if self.n_connect > 2 * len(self.ins) + 3 * len(self.outs) + 3 + self.world.n_comps * 4:
                 raise HarnessBound(f"{self.name}: connect called {self.n_connect} times")
             pd = {n: self.val(n, self.time) for n, req in self.connector.data_required.items() if req}
+            if self.after_data and any(self.connector.in_data[n] is None for n in self.ins if n not in self.no_pull):
+                pd = {}  # a processing step: it can publish only once it has seen its own inputs' initial data
             self.try_connect(start_time, push_data=pd)
             self.world.trace.append(("connect", self.name, self.status.name))
             if self.status == fm.ComponentStatus.CONNECTED:
                 for n in self.ins:
+                    if n in self.no_pull:
+                        continue
                     v = self.connector.in_data[n]
                     self.world.trace.append(
                         ("cpull", self.name, n, hs.mins(start_time), float(np.asarray(v.magnitude).ravel()[0]), str(v.units))
